@@ -11,7 +11,8 @@
    nesting depth and value in range - no bounds. *)
 From Coq Require Import Reals QArith Qreals List.
 From PsdV Require Import Composite.Scalar Composite.Model Composite.Spec Composite.Geometry Composite.Doc
-  Composite.ProofsKernel Composite.ProofsSpec Composite.ProofsBlend Composite.ProofsLaws Composite.ProofsDoc Composite.Transfer.
+  Composite.Plane Composite.SpecEval Composite.ProofsKernel Composite.ProofsSpec Composite.ProofsBlend Composite.ProofsLaws
+  Composite.ProofsDoc Composite.ProofsSpecEval Composite.ProofsEndToEnd Composite.Transfer.
 Import ListNotations.
 Open Scope R_scope.
 
@@ -127,8 +128,33 @@ Theorem executed_model_is_the_real_model vp (cb ab : Q) ls x y k :
 Proof. exact (model_Q_is_model_R vp cb ab ls x y k). Qed.
 Print Assumptions executed_model_is_the_real_model.
 
+(* ---------------- the kernel computes the PDF 11.4.8 group recurrences (SpecEval.v: premultiplied, no clipping,
+   no 0/0 convention) on EVERY well-formed element tree: knockout and normal elements, nested isolated and
+   non-isolated groups, masks / opacities, clipping runs *)
+Theorem kernel_is_pdf (iso : bool) (cb ab : R) (l : list (elem ROps)) :
+  Forall wf l -> unit cb -> unit ab ->
+  let '(C, f, al) := @composite_px ROps iso cb ab l in
+  let '(P, f', al') := pdf_composite iso cb ab l in
+  f = f' /\ al = al' /\ al * C = P.
+Proof. exact (ProofsSpecEval.kernel_is_pdf iso cb ab l). Qed.
+Print Assumptions kernel_is_pdf.
+
+(* ---------------- end to end: for documents of pixel layers with masks, clipping runs and groups (isolated and
+   pass-through, any nesting), the visibility filter, group bounding boxes, viewport intersections, early exits
+   and pastes compute, at every pixel of ANY viewport, the whole-plane PDF group formula - modulo colour where
+   alpha is 0 (shape, alpha and alpha*colour are compared) *)
+Theorem viewport_model_eq_spec (ls : list layer) (vp : rect) (cb ab : R) (x y : Z) (k : nat) :
+  Forall layer_ok ls -> unit cb -> unit ab -> inside vp x y = true ->
+  let '(C, f, al) := @composite_doc ROps vp cb ab ls x y k in
+  let '(P, f', al') := pdf_composite false cb ab (@plane_list ROps x y k ls) in
+  f = f' /\ al = al' /\ al * C = P.
+Proof. exact (ProofsEndToEnd.viewport_model_eq_spec ls vp cb ab x y k). Qed.
+Print Assumptions viewport_model_eq_spec.
+
+Example viewport_model_eq_spec_example :
+  inside (-1, 0, 5, 3)%Z 2 1 = true /\ unit (1/2) /\ unit (1/4).
+Proof. split; [reflexivity | unfold unit; split; Lra.lra]. Qed.
+
 (* Not proved here (stated for the record):
-   - viewport_model_eq_spec in its full form "the array machinery equals a whole-plane recursion that never
-     mentions viewports": Properties/C13.v proves the equivalent [viewport_independent] (any two viewports
-     containing the pixel give the same result), which is what makes the model a whole-plane function.
-   - float32 rounding of NumPy: bounded by the tolerance of the correspondence check, not modelled. *)
+   - float32 rounding of NumPy: bounded by the tolerance of the correspondence check, not modelled;
+   - the blend functions beyond the range hypothesis 0 <= B <= 1 (their formulas are C12's subject). *)
